@@ -112,6 +112,15 @@ def run_history(OS, h):
                 if list(t) != tcopy and t is not S:
                     res.append(['operand-mutated'])
                     continue
+                # no result (and no receiver of an in-place operator) may share storage with an operand: a later mutation of it must leave the operand as it was
+                if not isinstance(r, bool) and r is not None and hasattr(r, 'add') and t is not S and t is not r:
+                    keep_r, keep_S = list(r), list(S)
+                    r.add('__probe__')
+                    leaked = list(t) != tcopy or (r is not S and list(S) != keep_S)
+                    r.discard('__probe__')
+                    if leaked or list(r) != keep_r:
+                        res.append(['result-shares-storage-with-an-operand'])
+                        continue
                 if isinstance(r, bool):
                     res.append(['RBool', r])
                 else:
